@@ -59,6 +59,9 @@ type Run struct {
 	exhaustive bool
 	notes      []string
 	extraDist  int64
+	// MergeExisting: this binary is the second stage of a two-stage check; its coverage is
+	// merged into the evidence file the first stage has just written.
+	MergeExisting bool
 }
 
 // DistinctN adds n distinct non-trivial cases counted elsewhere (e.g. canonical states).
@@ -261,6 +264,9 @@ func (r *Run) Finish(rule string) int {
 	if r.Assume == nil {
 		evd["assumptions"] = []string{}
 	}
+	if r.MergeExisting {
+		evd = mergeEvidence(filepath.Join(Root, "evidence", r.Property+".json"), evd)
+	}
 	b, _ := json.MarshalIndent(evd, "", " ")
 	_ = os.MkdirAll(filepath.Join(Root, "evidence"), 0o755)
 	if err := os.WriteFile(filepath.Join(Root, "evidence", r.Property+".json"), b, 0o644); err != nil {
@@ -306,4 +312,80 @@ func Scratch(name string) string {
 		panic(err)
 	}
 	return d
+}
+
+// mergeEvidence folds the second stage's evidence into the first stage's file: integer
+// counters are summed, samples/notes concatenated, exhaustive and-ed; the second stage's
+// own coverage is also kept verbatim under "stage2".
+func mergeEvidence(path string, second map[string]any) map[string]any {
+	var first map[string]any
+	if err := ReadJSON(path, &first); err != nil || first == nil {
+		return second
+	}
+	fc, _ := first["coverage"].(map[string]any)
+	sc, _ := second["coverage"].(map[string]any)
+	if fc == nil || sc == nil {
+		return second
+	}
+	num := func(v any) (float64, bool) {
+		switch x := v.(type) {
+		case float64:
+			return x, true
+		case int64:
+			return float64(x), true
+		case int:
+			return float64(x), true
+		}
+		return 0, false
+	}
+	for k, v := range sc {
+		switch k {
+		case "samples", "notes":
+			a, _ := fc[k].([]any)
+			b, _ := v.([]any)
+			if bs, ok := v.([]string); ok {
+				for _, x := range bs {
+					b = append(b, x)
+				}
+			}
+			fc[k] = append(a, b...)
+		case "exhaustive":
+			x, _ := fc[k].(bool)
+			y, _ := v.(bool)
+			fc[k] = x && y
+		case "rule":
+			fc[k] = fmt.Sprint(fc[k]) + " || stage 2: " + fmt.Sprint(v)
+		default:
+			if nv, ok := num(v); ok {
+				if ov, ok2 := num(fc[k]); ok2 {
+					fc[k] = int64(ov + nv)
+				} else if _, exists := fc[k]; !exists {
+					fc[k] = v
+				}
+			} else if _, exists := fc[k]; !exists {
+				fc[k] = v
+			}
+		}
+	}
+	fc["stage2"] = sc
+	first["coverage"] = fc
+	if a, ok := num(first["wall_s"]); ok {
+		if b, ok := num(second["wall_s"]); ok {
+			first["wall_s"] = a + b
+		}
+	}
+	if a, ok := num(first["violations"]); ok {
+		if b, ok := num(second["violations"]); ok {
+			first["violations"] = int64(a + b)
+		}
+	}
+	if as, ok := first["assumptions"].([]any); ok {
+		if bs, ok := second["assumptions"].([]string); ok {
+			for _, x := range bs {
+				as = append(as, x)
+			}
+			first["assumptions"] = as
+		}
+	}
+	return first
 }
